@@ -240,6 +240,10 @@ inline void fill_leaf(Cell* c, int kind) {
             FlexPath* fp = mkflex(TAG_A, TAG_B);
             set_rep(fp->repetition, REP_RECT);
             c->flexpath_array.append(fp);
+            FlexPath* fp2 = mkflex(TAG_B, TAG_C);          // a path with an oblique Regular lattice: its outline polygons receive the
+            set_rep(fp2->repetition, REP_REGULAR);         // repetition by copy, which must carry both lattice vectors
+            fp2->translate(Vec2{-3, 7});
+            c->flexpath_array.append(fp2);
             RobustPath* rp = mkrobust(TAG_B, TAG_C);
             set_rep(rp->repetition, REP_EXPLICIT);
             c->robustpath_array.append(rp);
